@@ -5,7 +5,7 @@ consequence that *every* history of assignments yields a well-formed `generators
 import GT.Lemmas.Fox
 import GT.Lemmas.RepDerived
 
-namespace GT
+namespace GT.RepW
 namespace Rep
 open Fox
 
@@ -67,9 +67,9 @@ theorem history_wf {invert : DMat n n R → Option (DMat n n R)} (hinv : InvertO
       exact ih ρ1 ρ hwf1 (by rw [(setGenerator_inv_field hs).1, hi]) hf
 
 end Rep
-end GT
+end GT.RepW
 
-namespace GT
+namespace GT.RepW
 namespace Rep
 variable {n : ℕ} {R : Type} [Inhabited R] [CommRing R]
 
@@ -110,4 +110,4 @@ theorem copy_eq {ρ σ : Rep n R} (hnd : (ρ.gens.map Prod.fst).Nodup) (h : ρ.c
   simp
 
 end Rep
-end GT
+end GT.RepW
